@@ -19,8 +19,7 @@ def parse_afm(path):
     from antlr4 import CommonTokenStream, FileStream
     from afmparser.AFMLexer import AFMLexer
     from afmparser.AFMParser import AFMParser as P
-    from flamapy.metamodels.fm_metamodel.transformations.uvl_reader import CustomErrorListener
-    listener = CustomErrorListener()
+    listener = fmt.SyntaxErrors()
     lexer = AFMLexer(FileStream(path, encoding="utf-8"))
     lexer.removeErrorListeners()
     lexer.addErrorListener(listener)
